@@ -676,6 +676,9 @@ def run_check(prop, tier, seed, scratch, t0, n_override=None):
             continue
         if ("V", sig) in reported:
             continue
+        if n_viol >= 4:
+            # enough distinct replays have been written; further failing cases are counted in the evidence only
+            continue
         reported.add(("V", sig))
         small = shrink(prop, c, "violation")
         _, ms, is_ = evaluate(prop, [small])
